@@ -187,7 +187,10 @@ def run_replicas(pid, tier, seed, work, t0, M):
     merged, stats = _replica_traces(M, exe, work, scheds, seed)
     results = M.validate_all(work, [merged], "TraceRep")
     M.log("replicas: %s" % stats)
-    cov = {"model_states": mstates, "model_transitions": mtrans, "harness_stats": stats, "replicas_per_schedule": 6,
+    # unbounded companion of MC_branches: the branch discipline as an inductive invariant (Apalache; a missing / timed-out
+    # Apalache is reported and does not fail the check)
+    apa = M.inductive_check(work, "BranchesInd")
+    cov = {"model_states": mstates, "model_transitions": mtrans, "harness_stats": stats, "replicas_per_schedule": 6, "apalache": apa,
            "replica_kinds": "2 OS processes (GOMAXPROCS 3 and 8, started 1.1 s apart) x {A never stopped, B independent instance, C restarted from its database after every committed block}",
            "samples": [scheds[0]] + [M.trace_line(merged, 2), M.trace_line(merged, 3)]}
     return M.decide(pid, tier, seed, results, ids, t0, cov, P.get("assumptions", []))
